@@ -96,7 +96,9 @@ class ExprMixin:
                      "real", "unit", "fresh", "same_object", "shares_buffer", "defined", "is_none", "count_true",
                      "SUM", "sqrt", "field", "arr_eq", "abs_", "floor", "is_int", "shape0", "shape1", "nfields",
                      "isarray", "ufn", "trunc", "apply", "pairs_kept", "nyielded", "consumed", "nitems", "item",
-                     "yields_items_of", "mapped", "induct", "assume_axiom", "chunk_off", "defined_len", "is_permutation"}
+                     "yields_items_of", "mapped", "induct", "assume_axiom", "chunk_off", "defined_len", "is_permutation",
+                     "bo_fields", "bo_order", "bo_bytes", "bo_swapped", "bo_value", "bo_big", "bo_little", "bo_native",
+                     "bo_names", "machine_little"}
 
     def builtin(self, name):
         if name in EXC_NAMES:
@@ -402,6 +404,18 @@ class ExprMixin:
         if opn in ("In", "NotIn"):
             r = self.contains(b, a, st, fr, node)
             return r if opn == "In" else znot(r)
+        from .bomodel import OrderV, ORDER_CODES
+        if isinstance(a, OrderV) or isinstance(b, OrderV):
+            if opn not in ("Eq", "NotEq"):
+                raise Unsupported("ordering comparison of byte-order characters", node)
+            if isinstance(a, OrderV) and isinstance(b, OrderV):
+                eq = a.code == b.code
+            else:
+                o, c = (a, b) if isinstance(a, OrderV) else (b, a)
+                if not isinstance(c, str):
+                    raise Unsupported("byte-order character compared with a non-string", node)
+                eq = (o.code == ORDER_CODES[c]) if c in ORDER_CODES else False
+            return eq if opn == "Eq" else znot(eq)
         if self.is_arr(a, st) or self.is_arr(b, st):
             return self.np_binop(opn, a, b, st, fr, node)
         ka, kb = kind_of(a), kind_of(b)
@@ -629,9 +643,14 @@ class ExprMixin:
                 raise Unsupported("attribute %s of %s" % (attr, h.cls), node)
             if isinstance(h, (HArr, HArr2, HStruct)):
                 return self.arr_attr(v, h, attr, st, fr, node)
+            if type(h).__name__ == "HBO":
+                return self.bo_attr(v, h, attr, st, fr, node)
             if isinstance(h, (HList, HViewList)):
                 return Bound(v, Prim("list." + attr))
         from .nplib import DTypeV
+        from .bomodel import BODType, OrderV
+        if isinstance(v, BODType):
+            return self.bodtype_attr(v, attr, st, fr, node)
         if isinstance(v, DTypeV):
             if attr == "names":
                 return v.names
@@ -685,6 +704,9 @@ class ExprMixin:
     def module_attr(self, mod, attr, node=None):
         name = mod.name
         if name in ("numpy", "np"):
+            if attr == "little_endian":
+                from .bomodel import MACHINE_LITTLE
+                return MACHINE_LITTLE
             if attr in ("random", "linalg", "ma", "polynomial"):
                 return Module("numpy." + attr)
             return Prim("numpy." + attr)
@@ -753,6 +775,8 @@ class ExprMixin:
                 raise Unsupported("symbolic dict key", node)
             if isinstance(h, HStruct):
                 return self.struct_subscript(base, h, idx, st, fr, node)
+            if type(h).__name__ == "HBO":
+                return self.bo_subscript(base, h, idx, st, fr, node)
             if isinstance(h, HViewList):
                 j = self.index_ok(st, h.n, idx, fr, node)
                 hb = st.get(h.base)
